@@ -474,6 +474,39 @@ def run(ctx: Any, prog: Program) -> None:
             continue
         bit = max(wo)
         ctx.check('C16.Q1', bit in ra and (bit - 1) in ra and bit == 128, db, db.func(rfn), f'the writer sets bit {bit} of `{wvar}`; the reader combines `{rvar}` with {sorted(ra)}: it must test & {bit} and mask & {bit - 1}', func=wfn, text=f'flag bit {wvar}')
+    # the flag is merged before the byte is written, on every path that writes it
+    def _chain(fn: ast.AST, target: ast.AST) -> List[Tuple[int, int]]:
+        """[(id of statement list, index)] from the function body down to the statement holding `target`."""
+        def go(stmts: List[ast.stmt]) -> Optional[List[Tuple[int, int]]]:
+            for i, st in enumerate(stmts):
+                if not any(n is target for n in ast.walk(st)):
+                    continue
+                for fld in ('body', 'orelse', 'finalbody'):
+                    sub = getattr(st, fld, None)
+                    if isinstance(sub, list) and sub and isinstance(sub[0], ast.stmt):
+                        r = go(sub)
+                        if r is not None:
+                            return [(id(stmts), i)] + r
+                for h in getattr(st, 'handlers', []):
+                    r = go(h.body)
+                    if r is not None:
+                        return [(id(stmts), i)] + r
+                return [(id(stmts), i)]
+            return None
+        return go(fn.body) or []       # type: ignore[attr-defined]
+    for wfn, wvar in (('kv_serialise', 'value_type'), ('kv_serialise', 'power')):
+        f_ = db.func(wfn)
+        ors = [n for n in ast.walk(f_) if isinstance(n, ast.AugAssign) and isinstance(n.op, ast.BitOr) and dotted(n.target) == wvar]
+        packs = [c for c in ast.walk(f_) if isinstance(c, ast.Call) and isinstance(c.func, ast.Attribute) and c.func.attr == 'pack' and any(dotted(a) == wvar for a in c.args)]
+        if len(ors) != 1 or not packs:
+            ctx.shape('C16.Q1', False, db, f_, f'`{wvar} |= <bit>` / pack({wvar}) not found once', func=wfn, text=f'flag merged before {wvar} is written')
+            continue
+        oc = _chain(f_, ors[0])
+        for pk in packs:
+            pc = _chain(f_, pk)
+            before = any(a[0] == b[0] and a[1] < b[1] for a in oc for b in pc)
+            ctx.check('C16.Q1', before, db, pk, f'`{U(pk)}` writes `{wvar}` on a path that has not passed `{U(ors[0])}` (line {ors[0].lineno}): records written here lose the flag the reader tests for',
+                      func=wfn, text=f'flag merged before {wvar} is written')
     ok = 'flags & EntFlags.MASK_TYPE' in U(eu) and 'EntFlags.IS_ALIAS & flags' in U(eu) and 'flags |= EntFlags.IS_ALIAS' in U(es) and 'ENTITY_TYPE_2_FLAG[ent.type]' in U(es)
     ctx.shape('C16.Q1', ok, db, es, 'entity flags: type bits through ENTITY_TYPE_2_FLAG / MASK_TYPE, alias bit both ways', func='ent_serialise', text='entity flag bits')
     # top level
@@ -980,6 +1013,9 @@ def run(ctx: Any, prog: Program) -> None:
 
 
 MUTANTS: List[Dict[str, Any]] = [
+    {'id': 'spawnflags_type_byte_before_readonly', 'file': '_engine_db.py', 'find': "    # Use the high bit to store this inside here as well.\n    if kvdef.readonly:\n        value_type |= 128\n    file.write(_fmt_8bit.pack(value_type))\n", 'replace': "    if kvdef.type is ValueTypes.SPAWNFLAGS:\n        file.write(_fmt_8bit.pack(value_type))\n    if kvdef.readonly:\n        value_type |= 128\n    if kvdef.type is not ValueTypes.SPAWNFLAGS:\n        file.write(_fmt_8bit.pack(value_type))\n", 'expect': 'C16.Q1'},
+    {'id': 'sprite_parse_keeps_quotes', 'file': '_fgd_helpers.py', 'find': "            return cls(args[0].strip('\"'))", 'replace': "            return cls(args[0])", 'expect': 'C16.Q6'},
+    {'id': 'model_export_quotes', 'file': '_fgd_helpers.py', 'find': "        if self.model is not None:\n            return [self.model]", 'replace': "        if self.model is not None:\n            return [f'\"{self.model}\"']", 'expect': 'C16.Q6'},
     {'id': 'overflow_block_removed_before_filling', 'file': '_engine_db.py', 'find': "    # Now, add every remaining ent to overflow blocks.\n", 'replace': "    if not overflow_block.ents:\n        all_blocks.remove(overflow_block)\n    # Now, add every remaining ent to overflow blocks.\n", 'expect': 'C16.Q1'},
     {'id': 'sorted_ents_marks_done_in_pass', 'file': 'fgd.py', 'find': "                if ready:\n                    batch.append(ent)\n", 'replace': "                if ready:\n                    batch.append(ent)\n                    done.add(ent)\n", 'expect': 'C16.Q3'},
     {'id': 'db_classnames_folded_on_read', 'file': '_engine_db.py', 'find': "        classnames = file.read(cls_size).decode('utf8').split(STRING_SEP)", 'replace': "        classnames = file.read(cls_size).decode('utf8').casefold().split(STRING_SEP)", 'expect': 'C16.Q5'},
